@@ -23,8 +23,10 @@ SESSIONS = {
     # fixed session counts per tier (not wall-clock budgets): same seed => same verdict
     "quick": dict(C14=1600, C16=2400, C12=1600, C08=1600, C13=1600, C15=1200, C01=1200, C02=900, C03=700, C04=900,
                   C05=500, C06=1200, C07=1200, C09=600),
-    "thorough": dict(C14=24000, C16=40000, C12=24000, C08=24000, C13=20000, C15=16000, C01=16000, C02=12000, C03=9000,
-                     C04=12000, C05=6000, C06=16000, C07=16000, C09=8000),
+    # (thorough sessions are also larger: 30 ops, rows x 2.5; since every session runs in a process of its own the counts
+    # were halved to keep one thorough check within about ten minutes on 16 cores)
+    "thorough": dict(C14=12000, C16=20000, C12=12000, C08=12000, C13=10000, C15=6000, C01=8000, C02=6000, C03=4500,
+                     C04=6000, C05=3000, C06=8000, C07=8000, C09=4000),
 }
 MAX_MINIMISE_CLASSES = 10
 PER_CLASS_TRIES = 8
